@@ -118,8 +118,15 @@ class ProgExec:
         if k == "seq":
             before = self.snap(s) if self.check_atomic else None
             r = self.call("sequence", [s, PyClosure(lambda I, st: self.chain(n[1], st), "seq")])
-            if self.check_atomic and r.idx == 1 and not self.same(before, self.snap(r.f[0])):
-                self.violations.append(("failed sequence changed position/tokens/stack", sexpr(n)))
+            if self.check_atomic and r.idx == 1:
+                after = self.snap(r.f[0])
+                if not self.same(before, after):
+                    notag = lambda sn: (sn[0], [t[:3] + t[4:] if t[0] == "E" else t for t in sn[1]], sn[2])
+                    if self.same(notag(before), notag(after)):
+                        # tag_node() inside the failed sequence tagged a pair that was complete before the sequence began
+                        self.violations.append(("failed sequence left a node tag on an earlier pair", sexpr(n)))
+                    else:
+                        self.violations.append(("failed sequence changed position/tokens/stack", sexpr(n)))
             return r
         if k == "chain": return self.chain(n[1], s)
         if k == "choice":
